@@ -284,6 +284,20 @@ func (c *compiler) compileType(y *Type, parent Leafable, isUnion bool) error {
 		if _, isList := parent.(*LeafList); isList && !y.format.IsList() {
 			y.format = y.format.List()
 		}
+		if (y.format == val.FmtLeafRef || y.format == val.FmtLeafRefList) && !isUnion && y.path != "" {
+			// the path of a leafref in a grouping is followed from each place the grouping is
+			// used, it may well end on a leaf of another type there
+			if target, isLeaf := findLeafrefTarget(parent, y.path).(Leafable); isLeaf && target.Type() != nil && target.Type() != y.delegate {
+				if int(target.Type().format) == 0 {
+					if err := c.compileType(target.Type(), target, false); err != nil {
+						return err
+					}
+				}
+				here := *y
+				here.delegate = target.Type()
+				parent.setType(&here)
+			}
+		}
 		return nil
 	}
 	var builtinType bool
